@@ -90,6 +90,12 @@ func (fr *Frame) invoke(ins ssa.Instruction, cc *ssa.CallCommon, recv *Val, args
 	if itName == "error" && cc.Method.Name() == "Error" {
 		return fr.havocVal("errstr", SString)
 	}
+	if (itName == "net.Conn" || itName == "net.Listener") && (cc.Method.Name() == "RemoteAddr" || cc.Method.Name() == "LocalAddr" || cc.Method.Name() == "Addr") {
+		// documented: these never return nil
+		r := fr.havocVal("addr", SAny)
+		ex.vc.assume(not(eq(r.T, "anyNil")))
+		return r
+	}
 	// fall back: havoc the union of the static mod sets of package implementations
 	mods, all := ex.mods.InvokeMods(cc)
 	if all {
@@ -172,6 +178,16 @@ func (fr *Frame) havocCallee(callee *ssa.Function, argVals ...ssa.Value) {
 
 func (fr *Frame) callStatic(ins ssa.Instruction, callee *ssa.Function, args []*Val, bindings []*Val, resSort *Sort) *Val {
 	ex := fr.ex
+	if ex.safety && callee.Pkg == ex.pkg && len(callee.Blocks) > 0 {
+		// pointer-to-struct arguments (receiver included) must be non-nil: callees assume it
+		for k, a := range args {
+			if k < len(callee.Params) && a.S.K == KRef && a.S.Name != "" && a.S.Name != "cell" && a.S.Name != "map" && a.S.Name != "chan" && a.S.Name != "func" && a.S.Name != "nil" {
+				if derefsParam(callee, k) {
+					fr.safety("nil-arg", ins, "(not (= "+a.T+" 0))", callee.Name()+" arg "+callee.Params[k].Name())
+				}
+			}
+		}
+	}
 	// library function?
 	if callee.Pkg == nil || callee.Pkg != ex.pkg {
 		return fr.callLib(ins, callee, args, resSort)
@@ -518,4 +534,31 @@ func callArgs(ins ssa.Instruction) []ssa.Value {
 		return ci.Common().Args
 	}
 	return nil
+}
+
+// derefsParam: does the callee dereference its k-th parameter (field access or method call on it)?
+func derefsParam(callee *ssa.Function, k int) bool {
+	p := callee.Params[k]
+	refs := p.Referrers()
+	if refs == nil {
+		return false
+	}
+	for _, r := range *refs {
+		switch x := r.(type) {
+		case *ssa.FieldAddr:
+			if x.X == p {
+				return true
+			}
+		case *ssa.UnOp:
+			if x.X == p {
+				return true
+			}
+		case ssa.CallInstruction:
+			cc := x.Common()
+			if f, ok := cc.Value.(*ssa.Function); ok && len(cc.Args) > 0 && cc.Args[0] == p && f.Signature.Recv() != nil {
+				return true
+			}
+		}
+	}
+	return false
 }
